@@ -135,7 +135,7 @@ class Case:
     """one argument recipe for one pair on one receiver"""
 
     def __init__(self, recv, args=None, label="", rnd=False, gauge=False, noself=False, tol=1e-8, permtol=1e-7,
-                 noperm=None):
+                 noperm=None, collapse=False, noinpl=None):
         self.recv = recv
         self.args = args or (lambda x, h: ((), {}))
         self.label = label
@@ -145,6 +145,9 @@ class Case:
         self.tol = tol
         self.permtol = permtol
         self.noperm = noperm    # reason why re-stored receivers are not in the method's domain
+        self.noinpl = noinpl    # reason why the in-place spelling is outside its documented domain for these arguments
+        self.collapse = collapse  # contraction of everything: `f` returns the tensor / number, `f_` the network
+                                  # holding it (documented); compare them as tensor / number
 
 
 def observe_call(tid, ident, case, seed, modes, build, plain_fn, inpl_fn, contiguous=False):
@@ -179,7 +182,9 @@ def observe_call(tid, ident, case, seed, modes, build, plain_fn, inpl_fn, contig
 
     r1, exc1 = _call(plain_fn(x), a, kw, 777 + seed)
 
-    rec = {"ev": "call", "tid": tid, "randomised": bool(case.rnd), "docself": not case.noself, "hasinpl": inpl_fn is not None}
+    post = U.collapse if case.collapse else (lambda o: o)
+    rec = {"ev": "call", "tid": tid, "randomised": bool(case.rnd), "docself": not case.noself, "hasinpl": inpl_fn is not None,
+           "gauge": bool(case.gauge)}
     rec.update(ident)
     rec["recv"] = {"before": b_recv, "after": U.fp_raw(x)}
     rec["args"] = _pairs(b_args, [U.fp_raw(o) for o in argobjs])
@@ -187,10 +192,10 @@ def observe_call(tid, ident, case, seed, modes, build, plain_fn, inpl_fn, contig
     rec["arrays"] = _pairs(b_arr, [U.array_bytes_hash(z) for z in arrays])
     c1 = None
     if exc1:
-        rec["plain"] = {"exc": exc1, "st": EXC_ST, "dq": 0}
+        rec["plain"] = {"exc": exc1, "st": EXC_ST, "stw": EXC_ST, "dq": 0}
     else:
-        c1 = U.Canon(r1, known)
-        rec["plain"] = {"exc": "", "st": c1.struct(), "dq": 0}
+        c1 = U.Canon(post(r1), known)
+        rec["plain"] = {"exc": "", "st": c1.struct(), "stw": c1.struct(weak=True), "dq": 0}
 
     # in-place spelling on a copy taken before the plain call
     if inpl_fn is not None:
@@ -204,7 +209,7 @@ def observe_call(tid, ident, case, seed, modes, build, plain_fn, inpl_fn, contig
             ip.update({"st": EXC_ST, "dq": 0})
         else:
             res2 = y if r2 is None else r2
-            c2 = U.Canon(res2, known)
+            c2 = U.Canon(post(res2), known)
             ip["st"] = c2.struct()
             ip["dq"] = U.compare(c1, c2, case.tol) if c1 is not None else 0
         rec["inpl"] = ip
@@ -220,17 +225,20 @@ def observe_call(tid, ident, case, seed, modes, build, plain_fn, inpl_fn, contig
             cz = U.Canon((z, a3, kw3), known)
             same = cz.struct() == st_in and U.compare(cin, cz, 1e-12) == 0
             r3, exc3 = _call(plain_fn(z), a3, kw3, 777 + seed)
-            p = {"mode": mode, "exc": exc3, "same_in": bool(same)}
+            p = {"mode": mode, "exc": exc3, "same_in": bool(same), "level": "tensor"}
             if exc3:
                 p.update({"st": EXC_ST, "dq": 0})
             else:
-                c3 = U.Canon(r3, known)
+                c3 = U.Canon(post(r3), known)
                 p["st"] = c3.struct()
                 if c1 is None or case.rnd:
                     p["dq"] = 0
                 else:
-                    d = U.compare(c1, c3, case.permtol)
+                    d = U.compare(c1, c3, case.permtol) if p["st"] == rec["plain"]["st"] else 999999
                     if d != 0 and case.gauge:
+                        # the result has a gauge freedom: same class / outer labels / tags and same denotation
+                        p["level"] = "denotation"
+                        p["st"] = c3.struct(weak=True)
                         d = U.compare(c1, c3, case.permtol, dense=True)
                     p["dq"] = d
             rec["perm"].append(p)
@@ -273,6 +281,13 @@ def run_pairs(ctx, quick, tid0=0):
 
             probe = recvf(seed)
             plain_attr = getattr(type(probe), name, None)
+            # a subclass may define another method under the same name (e.g. MatrixProductState.flip)
+            owner = next((k.__name__ for k in type(probe).__mro__ if name + "_" in k.__dict__), None)
+            owner_plain = next((k.__name__ for k in type(probe).__mro__ if name in k.__dict__), None)
+            if owner != cn:
+                entry["reason"] = "recipe receiver %s resolves %s_ to %s" % (type(probe).__name__, name, owner)
+                continue
+            ident_extra = {"plain_owner": owner_plain or "?"}
             # the statement exempts spellings whose documented default is in-place
             try:
                 dflt = inspect.signature(plain_attr).parameters.get("inplace")
@@ -284,6 +299,7 @@ def run_pairs(ctx, quick, tid0=0):
             except (TypeError, ValueError):
                 pass
             ident = {"cls": cn, "name": name, "recvcls": type(probe).__name__, "case": case.label or case.recv}
+            ident.update(ident_extra)
             rec = observe_call(tid, ident, case, seed, modes_q if quick else modes_t, build,
                                lambda x, name=name: getattr(x, name),
                                lambda y, name=name: getattr(y, name + "_"),
@@ -335,7 +351,7 @@ def run_binops(ctx, quick, tid0):
                 inpl = None
             else:
                 plain = lambda x, fn=fn: (lambda other: fn(x, other))  # noqa
-                inpl = (lambda y, ifn=ifn: (lambda other: ifn(y, other))) if ifn is not None else None  # noqa
+                inpl = (lambda y, ifn=ifn: (lambda other: ifn(y, other))) if (ifn is not None and not case.noinpl) else None  # noqa
             ident = {"cls": cn, "name": "op " + sym, "recvcls": type(probe).__name__, "case": case.label or case.recv}
             rec = observe_call(tid, ident, case, seed, ["reverse", "random"] if quick else ["reverse", "roll", "random"],
                                build, plain, inpl)
@@ -348,3 +364,269 @@ def run_binops(ctx, quick, tid0):
             entry["status"] = "covered" if entry["returned"] else "rejected"
         table.append(entry)
     return recs, table, tid
+
+
+# ----------------------------------------------------------------------------- S->C: replay of model histories
+
+def _real_share(tens):
+    out = []
+    for t in range(1, len(tens)):
+        for u in range(1, t + 1):
+            if np.shares_memory(np.asarray(tens[u].data), np.asarray(tens[t].data)) or u == t:
+                out.append(u)
+                break
+    return out
+
+
+def replay_behaviour(beh, tid, seed):
+    """execute one history of the heap model on real objects; one record per call step"""
+    import quimb.tensor as qtn
+
+    rng = np.random.default_rng(seed)
+
+    def c(*shape):
+        return rng.standard_normal(shape) + 1j * rng.standard_normal(shape)
+
+    t1 = qtn.Tensor(c(2, 3, 2), inds=("a", "b", "c"), tags=("P",), left_inds=("a",))
+    t2 = qtn.Tensor(c(2, 2), inds=("c", "d"), tags=("Q",))
+    tens = [None, t1, t2]
+    nets = [None, qtn.TensorNetwork([t1, t2], virtual=True)]
+    recs = []
+
+    def obj(o):
+        return tens[o[1]] if o[0] == "T" else nets[o[1]]
+
+    def real_call(x, f, arg, inplace):
+        sfx = "_" if inplace else ""
+        if U.is_tensor(x):
+            if f == "scale":
+                return getattr(x, "negate" + sfx), (), "negate"
+            if f == "reduce":
+                return getattr(x, "sum_reduce" + sfx), (arg,), "sum_reduce"
+            if f == "relabel":
+                return getattr(x, "reindex" + sfx), ({arg[0]: arg[1]},), "reindex"
+            if f == "retag":
+                tg = sorted(x.tags)
+                return getattr(x, "retag" + sfx), ({tg[0]: arg} if tg else {},), "retag"
+            if f == "transpose":
+                return getattr(x, "transpose" + sfx), tuple(x.inds[p - 1] for p in arg), "transpose"
+        else:
+            if f == "each":
+                return getattr(x, "multiply_each" + sfx), (2.0,), "multiply_each"
+            if f == "relabel":
+                return getattr(x, "reindex" + sfx), ({arg[0]: arg[1]},), "reindex"
+            if f == "expo":
+                return getattr(x, "equalize_norms" + sfx), (1.0,), "equalize_norms"
+        raise MachineryError("unknown abstract method %s" % f)
+
+    def everything():
+        return [("T%d" % k, tens[k]) for k in range(1, len(tens))] + [("N%d" % k, nets[k]) for k in range(1, len(nets))]
+
+    def adopt_result(r, o):
+        if U.is_tensor(r):
+            tens.append(r)
+        elif U.is_tn(r):
+            tens.extend(r.tensor_map.values())
+            nets.append(r)
+
+    for si, st in enumerate(beh):
+        act = st["act"]
+        kind = act[0]
+        try:
+            if kind == "copy":
+                o = act[1]
+                if o[0] == "T":
+                    tens.append(tens[o[1]].copy())
+                else:
+                    m = nets[o[1]].copy()
+                    tens.extend(m.tensor_map.values())
+                    nets.append(m)
+            elif kind == "vcopy":
+                nets.append(nets[act[1]].copy(virtual=True))
+            elif kind == "adopt":
+                nets.append(qtn.TensorNetwork([tens[act[1]]], virtual=True))
+            elif kind == "permute":
+                t = tens[act[1]]
+                left = t.left_inds
+                t.transpose_(*[t.inds[p - 1] for p in act[2]])
+                if left is not None:
+                    t.modify(left_inds=left)
+            elif kind in ("plain", "binary", "inplace"):
+                if kind == "binary":
+                    sym, xo, yo = act[1]
+                    x, y = obj(xo), obj(yo)
+                    name = "op " + sym
+                    fn = {"+": operator.add, "&": operator.and_, "|": operator.or_}[sym]
+                    call = lambda: fn(x, y)  # noqa
+                    others = [(k, v) for k, v in everything() if v is not x and v is not y]
+                    argobjs = [y]
+                else:
+                    o, (f, arg) = act[1], act[2]
+                    x = obj(o)
+                    meth, a, name = real_call(x, f, arg, kind == "inplace")
+                    call = lambda: meth(*a)  # noqa
+                    others = [(k, v) for k, v in everything() if v is not x]
+                    argobjs = []
+                if kind == "inplace":
+                    mine = {id(x)} if U.is_tensor(x) else {id(t) for t in x.tensor_map.values()}
+                    others = [(k, v) for k, v in others
+                              if not ((U.is_tensor(v) and id(v) in mine) or (U.is_tn(v) and mine & {id(t) for t in v.tensor_map.values()}))]
+                arrays = U.arrays_of([v for _, v in everything()])
+                known = U.labels_of([v for _, v in everything()])
+                b_recv, b_args = U.fp_raw(x), [U.fp_raw(v) for v in argobjs]
+                b_oth = [U.fp_raw(v) for _, v in others]
+                b_arr = [U.array_bytes_hash(z) for z in arrays]
+                ycopy = x.copy() if kind == "plain" else None
+                r1, exc1 = _call(call, (), {}, 5)
+                rec = {"tid": tid, "cls": type(x).__name__, "name": name, "recvcls": type(x).__name__, "case": "replay step %d" % si,
+                       "sharers": [{"kind": k, "before": b, "after": U.fp_raw(v)} for (k, v), b in zip(others, b_oth)],
+                       "arrays": _pairs(b_arr, [U.array_bytes_hash(z) for z in arrays])}
+                if kind == "inplace":
+                    rec["ev"] = "inplace"
+                    rec["exc"] = exc1
+                else:
+                    rec.update({"ev": "call", "randomised": False, "docself": True, "hasinpl": kind == "plain", "gauge": False,
+                                "recv": {"before": b_recv, "after": U.fp_raw(x)},
+                                "args": _pairs(b_args, [U.fp_raw(v) for v in argobjs]), "perm": []})
+                    c1 = None
+                    if exc1:
+                        rec["plain"] = {"exc": exc1, "st": EXC_ST, "stw": EXC_ST, "dq": 0}
+                    else:
+                        c1 = U.Canon(r1, known)
+                        rec["plain"] = {"exc": "", "st": c1.struct(), "stw": c1.struct(weak=True), "dq": 0}
+                    if kind == "plain":
+                        # the in-place spelling on the copy taken before the plain call
+                        bound, a2, _ = real_call(ycopy, f, arg, True)
+                        b_orig = U.fp_raw(x)
+                        b_arr2 = [U.array_bytes_hash(z) for z in arrays]
+                        r2, exc2 = _call(bound, a2, {}, 5)
+                        ip = {"exc": exc2, "self": bool(r2 is ycopy), "orig": {"before": b_orig, "after": U.fp_raw(x)},
+                              "arrays": _pairs(b_arr2, [U.array_bytes_hash(z) for z in arrays])}
+                        if exc2:
+                            ip.update({"st": EXC_ST, "dq": 0})
+                        else:
+                            c2 = U.Canon(ycopy if r2 is None else r2, known)
+                            ip["st"] = c2.struct()
+                            ip["dq"] = U.compare(c1, c2, 1e-9) if c1 is not None else 0
+                        rec["inpl"] = ip
+                    else:
+                        rec["inpl"] = {"exc": "", "self": False, "orig": {"before": b_recv, "after": b_recv}, "arrays": [], "st": EXC_ST, "dq": 0}
+                if exc1:
+                    recs.append(rec)
+                    break
+                # the new objects get the ids the model gave them
+                if kind == "binary" and act[1][0] == "+":
+                    tens.append(y.transpose(*x.inds))     # the aligned operand the model allocates
+                    tens.append(r1)
+                elif kind == "binary" and act[1][0] == "|":
+                    nets.append(r1)
+                elif kind != "inplace":
+                    adopt_result(r1, None)
+                rec["model_share"] = list(st["share"])
+                rec["real_share"] = _real_share(tens) if len(tens) - 1 == len(st["share"]) else [-1]
+                if rec["model_share"] == rec["real_share"]:
+                    real_inds = [list(tens[k].inds) for k in range(1, len(tens))]
+                    if real_inds != [list(i) for i in st["inds"]]:
+                        rec["real_share"] = [-2]
+                recs.append(rec)
+        except MachineryError:
+            raise
+        except Exception as ex:  # noqa -- set-up step rejected by quimb: end of this history
+            recs.append({"ev": "setup-rejected", "tid": tid, "name": kind, "exc": type(ex).__name__})
+            break
+    return recs
+
+
+# ----------------------------------------------------------------------------- check
+
+MODEL_ACTIONS = ("CopyA", "VCopyA", "AdoptA", "PermuteA", "PlainA", "InplaceA", "BinaryA")
+SELFTESTS = (("MC_dev_write.cfg", "an in-place method writes into the shared buffer (data *= c)", ("PlainPureInv", "ArraysUntouchedInv", "SharersUntouchedInv", "CopyIsolatedInv")),
+             ("MC_dev_self.cfg", "a plain tensor spelling starts with x = self", ("PlainPureInv",)),
+             ("MC_dev_netself.cfg", "a plain network spelling starts with tn = self", ("PlainPureInv", "SharersUntouchedInv")),
+             ("MC_dev_axis.cfg", "a method reads the array by axis number", ("PermInvariantInv", "ResultIsRefInv")),
+             ("MC_dev_align.cfg", "a binary operator combines arrays position by position", ("PermInvariantInv", "ResultIsRefInv")))
+
+
+def run(ctx):
+    quick = ctx.tier == "quick"
+    warnings.filterwarnings("ignore")
+
+    # 1. TLC: every history of the heap model; every call step satisfies the clauses of C03_Defs
+    ctx.model_check("MC_C03", "MC_quick.cfg" if quick else "MC_thorough.cfg", name="alias-heap-histories",
+                    require_actions=MODEL_ACTIONS, timeout=2400)
+    for cfg, what, expect in SELFTESTS:
+        r = T.run_tlc("MC_C03", cfg, ctx.spec_dir, workers=4, allow_violation=True, scratch=ctx.scratch, timeout=600)
+        if r.violated not in expect:
+            raise MachineryError("model self-test %s (%s): expected one of %s to be violated, got %s" % (cfg, what, expect, r.violated))
+        ctx.extra.setdefault("model_selftests", []).append("%s: %s -> TLC finds a %s counterexample (%d states)" % (cfg, what, r.violated, r.distinct))
+
+    # 2. S->C: histories of the model replayed on real objects
+    nsim = 25 if quick else 120
+    res = T.run_tlc("MC_C03", "MC_sim.cfg", ctx.spec_dir, workers=1, coverage=False, simulate="num=%d" % nsim,
+                    depth=8, seed=11 + ctx.seed, scratch=ctx.scratch, timeout=900)
+    behs = T.parse_printed_json(res.output)
+    want = 150 if quick else 1500
+    if len(behs) < min(want, 50):
+        raise MachineryError("could not read the simulated behaviours back (%d)" % len(behs))
+    behs = sorted(behs, key=lambda b: repr(b))
+    step = max(1, len(behs) // want)
+    behs = behs[::step][:want]
+    rrecs = []
+    for k, b in enumerate(behs):
+        rrecs += replay_behaviour(b, k, 1000 * ctx.seed + k)
+    ctx.sample({"replayed_history": [s["act"] for s in behs[len(behs) // 2]]})
+    fails = ctx.validate("C03_Trace", "Trace.cfg", rrecs, name="replay", ntraces=len(behs))
+    ctx.extra["replayed_histories"] = len(behs)
+    ctx.extra["replayed_call_steps"] = len(rrecs)
+
+    # 3. C->S: every discovered pair / operator with its recipes
+    recs, table, tid = run_pairs(ctx, quick, 100000)
+    orecs, otable, tid = run_binops(ctx, quick, tid)
+    prs = []
+    for e in table + otable:
+        prs.append({"ev": "pair", "tid": tid, "cls": e["cls"], "name": e["name"], "status": e["status"], "reason": e["reason"] or "-",
+                    "cases": e["cases"], "returned": e["returned"]})
+        tid += 1
+
+    def cnt(tb, s):
+        return sum(1 for e in tb if e["status"] == s)
+
+    summ = {"ev": "summary", "tid": tid, "name": "method pairs", "discovered": len(table), "covered": cnt(table, "covered"),
+            "exempt": cnt(table, "exempt"), "norecipe": cnt(table, "norecipe"), "rejected": cnt(table, "rejected"),
+            "ops_discovered": len(otable), "ops_covered": cnt(otable, "covered")}
+    fails += ctx.validate("C03_Trace", "Trace.cfg", recs + orecs + prs + [summ], name="pairs", ntraces=len(recs) + len(orecs))
+    for r in (recs[3], recs[len(recs) // 2], orecs[0]):
+        ctx.sample({"call": {k: r[k] for k in ("cls", "name", "recvcls", "case", "recv", "plain")},
+                    "inpl": {k: r["inpl"][k] for k in ("exc", "dq", "self")}, "perm": [{k: p[k] for k in ("mode", "level", "dq", "same_in")} for p in r["perm"]]})
+
+    ctx.extra["pairs"] = {k: summ[k] for k in summ if k not in ("ev", "tid", "name")}
+    ctx.extra["pair_table"] = [{k: e[k] for k in ("cls", "name", "how", "status", "cases", "returned", "reason")} for e in table + otable]
+    ctx.extra["denotation_level_perm_comparisons"] = sorted({"%s.%s" % (r["cls"], r["name"]) for r in recs + orecs
+                                                             for p in r["perm"] if p.get("level") == "denotation"})
+    notes = [f for f in fails if f["clause"].startswith("NOTE:")]
+    for n in notes[:20]:
+        r = n["record"]
+        ctx.notes.append("%s: %s %s %s" % (n["clause"], r.get("cls", ""), r.get("name", ""), r.get("case", r.get("reason", ""))))
+    ctx.extra["notes_total"] = len(notes)
+    ctx.clauses.update(["PlainPure", "SharersUntouched", "ArraysUntouched", "PlainIsInplaceOnCopy", "CopyIsolated",
+                        "InplaceReturnsSelf", "PermInvariant", "Covered", "CoverageComplete", "CoverageFloor",
+                        "model: PlainPureInv SharersUntouchedInv ArraysUntouchedInv PlainIsInplaceOnCopyInv CopyIsolatedInv "
+                        "PermInvariantInv ResultIsRefInv InplaceLocalInv QuietStepInv"])
+    ctx.assumptions += [
+        "array writes are detected by bytes: a write of identical bytes is invisible (and harmless)",
+        "results are compared up to the stored axis order, the insertion order of tensors, a bijection on machine generated "
+        "labels that were not among the inputs, and a bijection on the summed (inner) labels of a network",
+        "numbers: relative tolerance 1e-8 (plain vs in-place on a copy) and 1e-7 (re-stored receivers)",
+        "results with a gauge freedom (decompositions, canonisation, compression, simplification) may follow the storage order "
+        "in their gauge: for the recipes flagged `gauge` a tensor-level mismatch falls back to class / outer labels / tags and "
+        "the contracted value (level 'denotation'); the pairs where this happened are listed in the evidence",
+        "randomised methods are called under a fixed seed in both spellings and are exempt from PermInvariant",
+        "contraction of everything: `f` returns the tensor / number and `f_` the network holding it (documented): compared as "
+        "tensor / number (recipes flagged `collapse`)",
+        "methods whose documented default is in-place (e.g. MatrixProductState.expand_bond_dimension) are exempt by the statement",
+        "an exception raised identically by both spellings is a rejection (unsupported input), not a violation",
+    ]
+    for f in fails:
+        if len(str(f["record"])) > 30000:
+            f["record"] = {k: v for k, v in f["record"].items() if k not in ("arrays", "sharers")}
+    ctx.judge([f for f in fails if not f["clause"].startswith("NOTE:")])
